@@ -62,12 +62,25 @@ Default(t) ==
 
 VARIABLES ty, files, cmd,     \* the layering (chosen in Init)
           val,                \* current value of the option (interp: function option index -> template)
-          pc                  \* 0 = defaults loaded; i = file i read; MaxFiles+1.. = command line applied
-vars == <<ty, files, cmd, val, pc>>
+          pc,                 \* 0 = defaults loaded; i = file i read; MaxFiles+1.. = command line applied
+          rbh                 \* ghost: what reading every option back gives after each source was applied
+vars == <<ty, files, cmd, val, pc, rbh>>
 
 Merge(f, g) == [x \in (DOMAIN f) \cup (DOMAIN g) |-> IF x \in DOMAIN g THEN g[x] ELSE f[x]]
 
 InterpDefault == (1 :> <<[k |-> "lit", n |-> 0]>>) @@ (2 :> <<[k |-> "lit", n |-> 9]>>) @@ (3 :> <<>>)
+
+RECURSIVE Expand(_, _, _)
+Expand(d, tmpl, fuel) ==
+    IF tmpl = <<>> THEN <<>>
+    ELSE LET h == Head(tmpl) IN
+         (CASE h.k = "lit" -> <<h.n>>
+            [] h.k = "pct" -> <<100>>                                   \* 100 stands for the character %
+            [] h.k = "ref" -> IF fuel = 0 THEN <<999>> ELSE Expand(d, d[h.n], fuel - 1))
+         \o Expand(d, Tail(tmpl), fuel)
+
+(* reading back: %(name)s is replaced by the CURRENT value of the named option, %% by % *)
+ReadBackOf(t, v) == IF t = "interp" THEN [i \in 1..3 |-> Expand(v.d, v.d[i], 4)] ELSE <<>>
 
 InitVal(t) == IF t = "interp" THEN [p |-> TRUE, v |-> 0, l |-> <<>>, d |-> InterpDefault, t |-> <<>>] ELSE Default(t)
 
@@ -94,15 +107,18 @@ Init == /\ ty \in Types
         /\ cmd \in CmdChoices(ty)
         /\ val = InitVal(ty)
         /\ pc = 0
+        /\ rbh = <<>>
 
 ReadFile == /\ pc < Len(files)
             /\ val' = FromFile(ty, val, files[pc + 1])
             /\ pc' = pc + 1
+            /\ rbh' = Append(rbh, ReadBackOf(ty, val'))
             /\ UNCHANGED <<ty, files, cmd>>
 
 CommandLine == /\ pc = Len(files)
                /\ val' = FromCmd(ty, val, cmd)
                /\ pc' = pc + 1
+               /\ rbh' = Append(rbh, ReadBackOf(ty, val'))
                /\ UNCHANGED <<ty, files, cmd>>
 
 Next == ReadFile \/ CommandLine
@@ -138,20 +154,10 @@ RuleFinal ==
 
 Precedence == Done => val = RuleFinal
 
-(* reading back: %(name)s is replaced by the CURRENT value of the named option, %% by % *)
-RECURSIVE Expand(_, _, _)
-Expand(d, tmpl, fuel) ==
-    IF tmpl = <<>> THEN <<>>
-    ELSE LET h == Head(tmpl) IN
-         (CASE h.k = "lit" -> <<h.n>>
-            [] h.k = "pct" -> <<100>>                                   \* 100 stands for the character %
-            [] h.k = "ref" -> IF fuel = 0 THEN <<999>> ELSE Expand(d, d[h.n], fuel - 1))
-         \o Expand(d, Tail(tmpl), fuel)
-
-ReadBack == IF ty = "interp" THEN [i \in 1..3 |-> Expand(val.d, val.d[i], 4)] ELSE <<>>
+ReadBack == ReadBackOf(ty, val)
 
 (* interpolation sees the final values, also of options that were overridden after the reference was written *)
 InterpCurrent == (Done /\ ty = "interp") => ReadBack = [i \in 1..3 |-> Expand(RuleFinal.d, RuleFinal.d[i], 4)]
 
-Emit == Done => PrintT(<<"BEH", ToJson([ty |-> ty, files |-> files, cmd |-> cmd, final |-> val, readback |-> ReadBack])>>)
+Emit == Done => PrintT(<<"BEH", ToJson([ty |-> ty, files |-> files, cmd |-> cmd, final |-> val, readback |-> ReadBack, rbh |-> rbh])>>)
 =============================================================================
